@@ -266,26 +266,28 @@ func (e *Engine) Discharge(obls []*Obligation, opt SolveOpts) error {
 			nUnknown++
 		}
 	}
-	for _, j := range jobs {
-		o := j.o
-		if o.Status != "unknown" || o.Expect == "sat" {
-			continue
-		}
-		if nUnknown > 4 {
-			break // many undecided obligations are not a load artefact; do not spend minutes retrying them
-		}
-		r := race(j.file, opt.TimeoutS*3, false)
-		if r.verdict == "unsat" {
-			o.Status, o.Solver, o.Seconds, o.Output = "discharged", r.solver+"/retry", r.secs, r.output
-			continue
-		}
-		for _, fs := range j.slices {
-			rs := race(fs, opt.TimeoutS, false)
-			if rs.verdict == "unsat" {
-				o.Status, o.Solver, o.Seconds, o.Output = "discharged", rs.solver+"/sliced-retry", rs.secs, rs.output
-				break
+	if nUnknown > 0 && nUnknown <= 4 {
+		// at most four: retried concurrently (many undecided obligations are not a load artefact; no retry then)
+		var rw sync.WaitGroup
+		for _, j := range jobs {
+			o := j.o
+			if o.Status != "unknown" || o.Expect == "sat" {
+				continue
 			}
+			rw.Add(1)
+			go func(j job, o *Obligation) {
+				defer rw.Done()
+				r := race(j.file, opt.TimeoutS*3, false)
+				if r.verdict == "unsat" {
+					o.Status, o.Solver, o.Seconds, o.Output = "discharged", r.solver+"/retry", r.secs, r.output
+					return
+				}
+				if r.verdict == "sat" {
+					o.Status, o.Solver, o.Seconds, o.Output = "failed", r.solver+"/retry", r.secs, r.output
+				}
+			}(j, o)
 		}
+		rw.Wait()
 	}
 	return nil
 }
